@@ -93,7 +93,7 @@ func okVarInfo(info *types.Info, scope ast.Node, e ast.Expr) (typ string, x ast.
 func checkCandidates(w *World, r *Result) {
 	fi, app := candidatesSite(w)
 	if fi == nil {
-		Undecided("the collection of union candidates (an append of *types.Named while ranging over scope.Names()) was not found in fetchPkgUnions or its helpers")
+		Undecided("the collection of union candidates (an unguarded append to a []*types.Named) was not found in fetchPkgUnions or its helpers")
 	}
 	info := fi.Pkg.TypesInfo
 	pos := w.Pos(app.Pos())
@@ -465,8 +465,8 @@ func checkImplements(w *World, r *Result) {
 }
 
 // candidatesSite locates where the candidates of a package's unions are collected: the one append to a
-// []*types.Named made while ranging over (*types.Scope).Names(), in fetchPkgUnions or in a helper of its package it
-// calls (the collection may be its own function or inlined).
+// []*types.Named that is not guarded by an Implements test, in fetchPkgUnions or in a helper of its package it calls
+// (the collection may be its own function or inlined). Whether it ranges over scope.Names() is AGR-C11c's question.
 func candidatesSite(w *World) (*FuncInfo, *ast.AssignStmt) {
 	fu := w.Func("analysis.fetchPkgUnions")
 	if fu == nil {
@@ -477,23 +477,22 @@ func candidatesSite(w *World) (*FuncInfo, *ast.AssignStmt) {
 	n := 0
 	for _, cf := range calleeClosure(w, fu, 2) {
 		info := cf.Pkg.TypesInfo
-		ast.Inspect(cf.Decl.Body, func(x ast.Node) bool {
-			rs, ok := x.(*ast.RangeStmt)
-			if !ok {
-				return true
+		for _, a := range appendStmts(info, cf.Decl.Body, "") {
+			if t := info.TypeOf(a.Lhs[0]); t == nil || t.String() != "[]*go/types.Named" {
+				continue
 			}
-			call, ok := ast.Unparen(rs.X).(*ast.CallExpr)
-			if !ok || fullName(calleeOf(info, call)) != "(*go/types.Scope).Names" {
-				return true
-			}
-			for _, a := range appendStmts(info, rs.Body, "") {
-				if t := info.TypeOf(a.Lhs[0]); t != nil && t.String() == "[]*go/types.Named" {
-					rfi, rapp = cf, a
-					n++
+			// members are appended under an Implements test, candidates are not
+			underImpl := false
+			for _, c := range pathConds(cf.Decl, a) {
+				if c.expr != nil && containsStr(callsIn(info, c.expr), "go/types.Implements") {
+					underImpl = true
 				}
 			}
-			return true
-		})
+			if !underImpl {
+				rfi, rapp = cf, a
+				n++
+			}
+		}
 	}
 	if n != 1 {
 		return nil, nil
